@@ -28,7 +28,7 @@ TOL = 1e-9
 def gen_cases(tier, seed):
     rng = np.random.default_rng(seed + 21)
     cases = []
-    nrand = 3 if tier == "quick" else 50
+    nrand = 3 if tier == "quick" else 150
     for fam in zoo.ALL_FAMS:
         cfgs = zoo.configs([fam], tier, seed + 5, nrand)
         for ci, cfg in enumerate(cfgs):
@@ -43,10 +43,10 @@ def gen_cases(tier, seed):
                           "cost": 8 if "umnn" in fam else 2})
             if "actnorm" in str(cfg) and fam != "actnorm":
                 cases.append(dict(cases[-1], warm=False, policy="fresh"))
-    for i in range(40 if tier == "quick" else 1500):
+    for i in range(40 if tier == "quick" else 4000):
         cases.append({"kind": "flow", "cfg": dzoo.sample_flow_cfg(rng), "seed": env.subseed(seed, "c12f", i), "world": "f64",
                       "warm": i % 3 != 0, "cost": 3})
-    for i in range(30 if tier == "quick" else 600):
+    for i in range(30 if tier == "quick" else 2000):
         cases.append({"kind": "dist", "cfg": dzoo.sample_dist_cfg(rng), "seed": env.subseed(seed, "c12d", i), "world": "f64",
                       "cost": 1})
     # batch-normalised MADE mixtures in every block type (the only library distribution with batch statistics inside)
